@@ -347,6 +347,9 @@ pub fn install_panic_hook() {
             "<non-string panic>".to_string()
         };
         let (file, line) = info.location().map(|l| (l.file().to_string(), l.line())).unwrap_or(("?".into(), 0));
+        if std::env::var_os("MCX_SHOW_PANICS").is_some() {
+            eprintln!("panic: {} at {}:{}", msg, file, line);
+        }
         LAST_PANIC.with(|p| *p.borrow_mut() = Some(Panic { msg, file, line }));
     }));
 }
